@@ -108,6 +108,19 @@ class C06(Prop):
                 return {"unmodelled": str(e), "n_steps": len(log), "kinds": ["oracle-only"], "d26_steps": loop_steps_with_other_setups(log)}
             convs.append((m, c))
             progs.append({"prog": c.program(), "points": ac.real_inference_at_points(c), "carried": bool(c.has_carried)})
+        # the desugaring of carried values is part of the tie between model and code: validate it by execution — the model's CSR
+        # machine on the desugared input and output of the pass against the harness machine on the real IR
+        dexecs = []
+        if progs[0]["carried"] or progs[-1]["carried"]:
+            for which in (0, len(convs) - 1):
+                m_, c_ = convs[which]
+                f_ = ac.find_func(m_)
+                for args in ac.executions(random.Random(case["xseed"] + which), 3):
+                    try:
+                        tr = ac.run_func(f_, args, calltag=c_.calltag, universe=c_.universe())
+                    except ac.Undefined:
+                        continue
+                    dexecs.append({"which": which, "args": args, "trace": c_.trace_json(tr)})
         # block-level steps: the move performed by the real pattern, as (block path + start of the segment, flags)
         moves = []
         for k, (name, path, before, after, *rest) in enumerate(log):
@@ -163,7 +176,7 @@ class C06(Prop):
                     dces.append({"step": k, "skip": str(e)})
         kinds = sorted({n.replace("SetupAwaitOverlapPattern", "") for (n, *_r) in log})
         return {"progs": progs, "n_steps": len(log), "kinds": kinds, "d26_steps": loop_steps_with_other_setups(log),
-                "moves": moves, "loops": loops, "dces": dces}
+                "moves": moves, "loops": loops, "dces": dces, "dexecs": dexecs}
 
     def requests(self, case, impl_out):
         if case["kind"] == "d26_literal":
@@ -188,6 +201,9 @@ class C06(Prop):
             before = impl_out["progs"][m["step"]]["prog"]
             reqs.append({"fn": "c01.step", "args": {"rule": "dce", "path": m["path"], "j": 0, "body": before["body"],
                                                     "fields": before["fields"]}})
+        for e in impl_out.get("dexecs", []):
+            pr = impl_out["progs"][e["which"]]["prog"]
+            reqs.append({"fn": "c07.exec", "args": {"body": pr["body"], "fields": pr["fields"], "args": e["args"], "init": ac.INIT}})
         return reqs
 
     def model(self, case, answers, impl_out):
@@ -278,7 +294,13 @@ class C06(Prop):
                 return {"model_error": f"dce step {m['step']} at {m['path']}: the model's erase (side condition: results unused) does not "
                                        f"reproduce the real rewrite", "dce": m}
             self.loop_cov["dce_steps_certified"] += 1
-        return dict(impl_out, progs=progs)
+        dex = []
+        for e in impl_out.get("dexecs", []):
+            a = answers[k]
+            k += 1
+            dex.append(dict(e, trace=a.get("ok", a)))
+            self.loop_cov["desugared_programs_executed_by_model"] += 1
+        return dict(impl_out, progs=progs, dexecs=dex)
 
     def extra_coverage(self):
         return {"loop_level_steps": dict(self.loop_cov),
